@@ -5,6 +5,7 @@ import (
 	"fmt"
 	"io"
 	"os"
+	"reflect"
 	"strings"
 	"syscall"
 
@@ -112,7 +113,7 @@ func init() {
 		Level: "fault_enumeration",
 		Rule: "every module of the corpus (atoms, repo testdata, llvm-stress programs in thorough) is written with WriteTo to a writer that fails after exactly k accepted bytes, " +
 			"for every k in [0,len] (all offsets when len<=6000, else 400 PRNG offsets plus boundaries), once with a sentinel error, once with io.ErrShortWrite, and once with a writer whose failing call accepts its whole chunk and returns (len(p), err); the corpus includes a synthetic module with a function body of more than 64 KiB; " +
-			"Real destinations: /dev/full, a pipe whose reader goes away after 0, 1 or half of the bytes, a closed file and a regular file, through an *os.File wrapper that records what the descriptor accepted and its first error: count, error identity and no write after the failure. Kind stringwriter: the failing writer also has WriteString, WriteByte and ReadFrom (as *os.File, *bufio.Writer, *bytes.Buffer have), all on the same byte budget, at every offset. Failure kinds also include the errors of real destinations at 25 offsets per module (io.ErrClosedPipe, EPIPE bare and in *os.PathError, io.EOF, os.ErrClosed, ENOSPC, errors with Temporary()/Timeout() methods, EAGAIN, EINTR). First output: a second, never-printed parse of every input, and API-built modules whose numbers are still to be assigned (block addresses used from outside the function, metadata definitions with ID -1 attached to a global, a function and an instruction; never printed, or printed and then edited) are written once to a non-failing writer and to writers failing at every offset: what WriteTo wrote is what String() returns afterwards. " +
+			"Real destinations: /dev/full, a pipe whose reader goes away after 0, 1 or half of the bytes, a closed file and a regular file, through an *os.File wrapper that records what the descriptor accepted and its first error: count, error identity and no write after the failure. Kind stringwriter: the failing writer also has WriteString, WriteByte and ReadFrom (as *os.File, *bufio.Writer, *bytes.Buffer have), all on the same byte budget, at every offset. Failure kinds also include the errors of real destinations at 25 offsets per module (io.ErrClosedPipe, EPIPE bare and in *os.PathError, io.EOF, os.ErrClosed, ENOSPC, errors with Temporary()/Timeout() methods, EAGAIN, EINTR, errors of an uncomparable dynamic type: a slice of messages, a struct holding a slice). First output: a second, never-printed parse of every input, and API-built modules whose numbers are still to be assigned (block addresses used from outside the function, metadata definitions with ID -1 attached to a global, a function and an instruction; never printed, or printed and then edited) are written once to a non-failing writer and to writers failing at every offset: what WriteTo wrote is what String() returns afterwards. " +
 			"a case is (module, k, failure kind); it is non-trivial when 0<k<len, i.e. the failure hits in the middle of the output; distinct = distinct (module digest, k, kind)",
 		Gen:           genC19,
 		MinNontrivial: 1000,
@@ -344,8 +345,13 @@ func runC19(r *fw.Rec, s corpus.Source) {
 		"temporary": tempErr{"resource temporarily unavailable", true, false},
 		"eagain":    syscall.EAGAIN,
 		"eintr":     &os.PathError{Op: "write", Path: "out.ll", Err: syscall.EINTR},
+		// errors whose dynamic type cannot be compared with == (a list of errors as
+		// go/scanner.ErrorList or a multi-error, a struct carrying a slice): a printer
+		// that compares the error it is handed panics instead of reporting it
+		"errlist":      listErr{"write failed", "disk detached"},
+		"uncomparable": detailErr{msg: "write failed", detail: []string{"sector 7"}},
 	}
-	kinds := []string{"sentinel", "shortwrite", "fullcount", "stringwriter", "closedpipe", "epipe", "syscall-epipe", "eof", "closed", "enospc", "timeout", "temporary", "eagain", "eintr"}
+	kinds := []string{"sentinel", "shortwrite", "fullcount", "stringwriter", "closedpipe", "epipe", "syscall-epipe", "eof", "closed", "enospc", "timeout", "temporary", "eagain", "eintr", "errlist", "uncomparable"}
 	for _, kind := range kinds {
 		short := kind == "shortwrite"
 		koffs := offs
@@ -365,7 +371,15 @@ func runC19(r *fw.Rec, s corpus.Source) {
 			if kind == "stringwriter" {
 				dst = richWriter{w}
 			}
-			if p, msg, _ := fw.Guard(func() { n, werr = m.WriteTo(dst) }); p {
+			p, msg, _, hung, witness := fw.GuardLive(func() { n, werr = m.WriteTo(dst) })
+			if hung {
+				// a call that waits for a lock nobody can release never reports (n, err)
+				r.Violate(fw.Violation{Key: fmt.Sprintf("writeto-never-returns/%s/%s", kind, s.ID), Input: text,
+					What:     fmt.Sprintf("WriteTo to a writer failing (%s) after k=%d bytes never returns: the call waits for a lock inside llir/llvm and no other goroutine is inside the library to release it (the module was written to failing writers before)", kind, k),
+					Observed: witness})
+				return
+			}
+			if p {
 				r.Violatef(fmt.Sprintf("writeto-panic/%s/k=%d", s.ID, k), text, "WriteTo panicked with a writer failing after %d bytes: %s", k, msg)
 				return
 			}
@@ -379,7 +393,7 @@ func runC19(r *fw.Rec, s corpus.Source) {
 				bad = fmt.Sprintf("returned n=%d but the writer accepted %d bytes", n, len(w.got))
 			case len(w.got) > L || string(w.got) != T[:len(w.got)] || (kind != "fullcount" && len(w.got) != min(k, L)) || len(w.got) < min(k, L):
 				bad = "bytes delivered are not the prefix of String() the writer accepted"
-			case k < L && werr != w.firstErr:
+			case k < L && !sameErr(werr, w.firstErr):
 				bad = fmt.Sprintf("returned err=%v, want the writer's first error %v", werr, w.firstErr)
 			case k < L && !w.failed:
 				bad = "writer with limit k<len never saw the overflowing write"
@@ -399,7 +413,7 @@ func runC19(r *fw.Rec, s corpus.Source) {
 	}
 	r.NontrivialN("c19/"+dig, nontriv*1)
 	r.Tally("modules", "checked")
-	r.TallyN("offsets", "checked", 4*len(offs)+10*min(len(offs), 25))
+	r.TallyN("offsets", "checked", 4*len(offs)+12*min(len(offs), 25))
 	if L <= 6000 {
 		r.Tally("modules", "all_offsets_enumerated")
 	}
@@ -553,6 +567,38 @@ func c19RealDestinations(r *fw.Rec) {
 			}
 		}
 	}
+}
+
+// listErr is an error whose dynamic type is a slice (as go/scanner.ErrorList).
+type listErr []string
+
+func (e listErr) Error() string { return strings.Join(e, "; ") }
+
+// detailErr is a struct error that is not comparable.
+type detailErr struct {
+	msg    string
+	detail []string
+}
+
+func (e detailErr) Error() string { return e.msg }
+
+// sameErr is error identity that does not panic on uncomparable dynamic types.
+func sameErr(a, b error) bool {
+	if a == nil || b == nil {
+		return a == nil && b == nil
+	}
+	ta := reflect.TypeOf(a)
+	if ta != reflect.TypeOf(b) {
+		return false
+	}
+	if ta.Comparable() {
+		return a == b
+	}
+	va, vb := reflect.ValueOf(a), reflect.ValueOf(b)
+	if va.Kind() == reflect.Slice {
+		return va.Len() == vb.Len() && va.Pointer() == vb.Pointer()
+	}
+	return reflect.DeepEqual(a, b)
 }
 
 // tempErr is an error with the Temporary and Timeout methods of net.Error.
